@@ -1300,21 +1300,153 @@ def shared_state_writes(repo: Repo) -> list[dict]:
     return out
 
 
-def memoised(repo: Repo) -> list[dict]:
-    """Functions under a caching decorator; `harmless` when the cache cannot be observed: a function of immutable arguments only,
-    returning an immutable value, that is not bound to an instance, reads no module / class level state and writes nothing."""
+_PURE_LIBS = ("re.", "dataclasses.replace", "itertools.", "functools.reduce", "operator.", "string.", "posixpath.", "os.path.join", "os.sep", "pathlib.PurePath", "textwrap.")
+
+
+def _constant_is_immutable(repo: Repo, mod, e: ast.AST | None, depth: int = 0, cls=None) -> bool:
+    """A module / class level constant whose value can never change: text, numbers, None, tuples / frozensets of those,
+    compiled patterns, and expressions over other such constants."""
+    if e is None or depth > 6:
+        return False
+    if isinstance(e, (ast.Constant, ast.JoinedStr)):
+        return not isinstance(e, ast.JoinedStr) or all(_constant_is_immutable(repo, mod, v.value, depth + 1, cls) for v in e.values if isinstance(v, ast.FormattedValue))
+    if isinstance(e, ast.Tuple):
+        return all(_constant_is_immutable(repo, mod, x, depth + 1, cls) for x in e.elts)
+    if isinstance(e, (ast.BinOp,)):
+        return _constant_is_immutable(repo, mod, e.left, depth + 1, cls) and _constant_is_immutable(repo, mod, e.right, depth + 1, cls)
+    if isinstance(e, ast.UnaryOp):
+        return _constant_is_immutable(repo, mod, e.operand, depth + 1, cls)
+    if isinstance(e, ast.Name):
+        if e.id in mod.constants:
+            return _constant_is_immutable(repo, mod, mod.constants[e.id], depth + 1, cls)
+        if e.id in mod.classes or e.id in mod.functions:
+            return True
+        fq = repo.resolve_name(mod, e)
+        if fq:
+            m2, _, attr = fq.rpartition(".")
+            om = repo.modules.get(m2)
+            if om is not None and attr in om.constants:
+                return _constant_is_immutable(repo, om, om.constants[attr], depth + 1)
+            if om is not None and (attr in om.classes or attr in om.functions):
+                return True
+            if om is None:
+                return True  # a library name (module, function, flag such as re.DOTALL)
+        return cls is not None and any(e.id in c.class_attrs and _constant_is_immutable(repo, c.module, c.class_attrs[e.id], depth + 1, c) for c in repo.mro(cls))
+    if isinstance(e, ast.Attribute):
+        fq = repo.resolve_name(mod, e)
+        if fq is not None:
+            m2, _, attr = fq.rpartition(".")
+            if m2 in repo.classes:
+                ci = repo.classes[m2]
+                for c in repo.mro(ci):
+                    if attr in c.class_attrs:
+                        return _constant_is_immutable(repo, c.module, c.class_attrs[attr], depth + 1, c)
+                    if attr in c.methods:
+                        return True
+                return False
+            om = repo.modules.get(m2)
+            if om is not None and attr in om.constants:
+                return _constant_is_immutable(repo, om, om.constants[attr], depth + 1)
+            return not fq.startswith("pytestarch") or (om is not None and (attr in om.classes or attr in om.functions))
+        return False
+    if isinstance(e, ast.Call):
+        fq = repo.resolve_name(mod, e.func) if isinstance(e.func, (ast.Name, ast.Attribute)) else None
+        ok_fn = (fq is not None and (fq in ("re.compile",) or fq.startswith("re.") or fq in ("frozenset", "tuple"))) or (isinstance(e.func, ast.Name) and e.func.id in ("frozenset", "tuple", "str", "int", "len") and fq is None)
+        if ok_fn:
+            return all(_constant_is_immutable(repo, mod, a, depth + 1, cls) for a in [*e.args, *[k.value for k in e.keywords]])
+        if isinstance(e.func, ast.Attribute) and e.func.attr in ("join", "format", "strip", "lower", "upper", "replace"):
+            return _constant_is_immutable(repo, mod, e.func.value, depth + 1, cls) and all(_constant_is_immutable(repo, mod, a, depth + 1, cls) for a in e.args)
+    return False
+
+
+def _reads_only_constants(repo: Repo, f: FuncInfo, depth: int = 0, stack: tuple = ()) -> str | None:
+    """None if `f` computes its result from its parameters and immutable module / class constants only (helpers it calls
+    included) and writes nothing; otherwise the reason."""
     T = types_of(repo)
     R = _roots(repo)
+    if depth > 4 or f.fq in stack:
+        return f"{f.qualname} could not be followed (recursion / depth)"
+    if isinstance(f.node, ast.Lambda):
+        nodes = list(own_nodes(f.node))
+    else:
+        nodes = list(own_nodes(f.node))
+    R._scan(f)
+    local = set(f.param_names) | set(R._bindings[f.fq])
+    sn = Roots.self_name(f)
+    if sn is not None and not f.is_classmethod:
+        return f"{f.qualname} is bound to an instance whose state it can read"
+    if any(not all(r == FRESH for r, _l in R.targets(w)) for w in R.writes(f)):
+        return f"{f.qualname} writes to objects it did not create"
+    handled: set[int] = set()
+    for n in nodes:
+        if isinstance(n, ast.Attribute) and isinstance(n.ctx, ast.Load):
+            base = n.value
+            # cls.X / Class.X : a class constant or a method
+            cls_like = (isinstance(base, ast.Name) and ((sn is not None and base.id == sn) or (base.id not in local and (base.id in f.module.classes or (repo.resolve_name(f.module, base) or "") in repo.classes))))
+            if cls_like:
+                handled.add(id(base))
+                ci = f.cls if (sn is not None and base.id == sn) else repo.classes.get(repo.resolve_name(f.module, base) or "")  # type: ignore[union-attr]
+                if ci is None:
+                    return f"`{norm(n)}` could not be resolved"
+                found = False
+                for c in [*repo.mro(ci), *repo.subclasses(ci)]:
+                    if n.attr in c.methods:
+                        found = True
+                        break
+                    if n.attr in c.class_attrs:
+                        found = True
+                        if not _constant_is_immutable(repo, c.module, c.class_attrs[n.attr], 0, c):
+                            return f"it reads class-level state `{norm(n)}` that is not an immutable constant"
+                        break
+                if not found:
+                    return f"it reads `{norm(n)}`, which is not a constant of the class"
+    for n in nodes:
+        if isinstance(n, ast.Name) and isinstance(n.ctx, ast.Load) and id(n) not in handled and n.id not in local:
+            if f.outer is not None:
+                return f"it reads `{n.id}` from an enclosing function"
+            if n.id in f.module.constants and not _constant_is_immutable(repo, f.module, f.module.constants[n.id]):
+                return f"it reads module-level state `{n.id}` that is not an immutable constant"
+            if n.id in f.module.imports:
+                fq = repo.resolve_name(f.module, n) or ""
+                m2, _, attr = fq.rpartition(".")
+                om = repo.modules.get(m2)
+                if om is not None and attr in om.constants and not _constant_is_immutable(repo, om, om.constants[attr]):
+                    return f"it reads module-level state `{n.id}` that is not an immutable constant"
+    for n in nodes:
+        if isinstance(n, ast.Call):
+            try:
+                cs, how = T.callees(f, n, byname_fallback=False)
+            except Exception:  # noqa: BLE001
+                cs, how = [], "unresolved"
+            if T.ctor_class(f, n) is not None and how == "ctor":
+                continue
+            for g in cs:
+                if g.is_abstract:
+                    continue
+                why = _reads_only_constants(repo, g, depth + 1, stack + (f.fq,))
+                if why is not None:
+                    return f"it calls {g.qualname}: {why}"
+            if not cs and how in ("unresolved", "unknown", "callable-param"):
+                return f"it calls `{norm(n.func, 60)}`, which could not be resolved"
+    return None
+
+
+def memoised(repo: Repo) -> list[dict]:
+    """Functions under a caching decorator; `harmless` when the cache cannot be observed: a function (module-level, static or
+    class method - no instance) of immutable arguments only, returning an immutable value (text, numbers, tuples / frozensets of
+    those, a compiled pattern), computed from its arguments and immutable module / class constants only, writing nothing."""
+    T = types_of(repo)
     out = []
     for f in repo.all_functions():
         decos = [d for d in f.decorators if d in CACHE_DECORATORS]
         if not decos or isinstance(f.node, ast.Lambda):
             continue
         why = []
-        if Roots.self_name(f) is not None:
-            why.append("it is bound to an instance / class whose state it can read")
+        sn = Roots.self_name(f)
+        if "cached_property" in decos or (sn is not None and not f.is_classmethod):
+            why.append("it is bound to an instance whose state it can read: the value computed for one state of the object is served for every later one")
         for p in f.params:
-            if p.arg == Roots.self_name(f):
+            if p.arg == sn:
                 continue
             it = _immutable_type(T.param_type(f, p.arg))
             if it is not True:
@@ -1322,14 +1454,10 @@ def memoised(repo: Repo) -> list[dict]:
         rt = _immutable_type(T.return_type(f))
         if rt is not True:
             why.append("the cached result is a mutable object shared between all callers" if rt is False else "the type of the cached result is unknown")
-        for n in own_nodes(f.node):
-            if isinstance(n, ast.Name) and isinstance(n.ctx, ast.Load):
-                v = R.value(f, n)
-                if any(r[0] == "global" for r in v.roots):
-                    why.append(f"it reads module-level state `{n.id}`")
-                    break
-        if any(not all(r == FRESH for r, _l in R.targets(w)) for w in R.writes(f)):
-            why.append("it writes to objects it did not create")
+        if not why:
+            reason = _reads_only_constants(repo, f)
+            if reason is not None:
+                why.append(reason)
         out.append({"f": f, "decorators": decos, "harmless": not why, "why": why})
     return out
 
@@ -1355,7 +1483,7 @@ def run_r4(repo: Repo, res: Result) -> None:
             "C15.R4",
             f"{f.relpath}::{f.qualname}::cache decorator",
             m["harmless"],
-            f"{f.qualname} is memoised ({', '.join(m['decorators'])}) but is a function of immutable arguments only with an immutable result, reads no shared state and writes nothing: the cache cannot be observed" if m["harmless"] else f"{f.qualname} is memoised ({', '.join(m['decorators'])}): results computed for one architecture / configuration are served to later calls; " + "; ".join(m["why"]),
+            f"{f.qualname} is memoised ({', '.join(m['decorators'])}) but is not bound to an instance, takes immutable arguments only, returns an immutable value computed from them and from immutable constants, and writes nothing: the cache cannot be observed" if m["harmless"] else f"{f.qualname} is memoised ({', '.join(m['decorators'])}): results computed for one architecture / configuration are served to later calls; " + "; ".join(m["why"]),
             where(f, f.node),
             kind="effect",
         )
@@ -1372,7 +1500,11 @@ def run_r4(repo: Repo, res: Result) -> None:
         if got != want or any(q in clean for q, _k in got):
             raise AnalysisError(f"C15.R4 fixture: shared-state writes not recognised exactly (got {sorted(got)}, want {sorted(want)})")
         memo = {m["f"].qualname: m["harmless"] for m in memoised(frepo)}
-        want_memo = {"pure_text": True, "shared_result": False, "state_dependent": False, "of_mutable_argument": False}
+        want_memo = {
+            "pure_text": True, "shared_result": False, "state_dependent": False, "of_mutable_argument": False,
+            "Patterns.body_pattern": True, "Patterns.escaped": True, "Patterns.matches_of": False, "Patterns.reads_mutable_class_state": False,
+            "Patterns.reads_mutable_module_state": False, "Patterns.of_instance": False, "Patterns.lazily": False,
+        }
         if memo != want_memo:
             raise AnalysisError(f"C15.R4 fixture: memoised functions not classified as expected (got {memo}, want {want_memo})")
         res.add("C15.R4", "fixture::engine/rules/c15_fixtures/shared_state.py", True, f"positive fixture recognised: {sorted(got)}; memoised: {memo}", nontrivial=False)
